@@ -298,28 +298,3 @@ Qed.
 Example C02_text_substitution_hyps_hold :
   exists t', parse_token fdec_any (str "v4") [] (str ".local.") (str "v4.local.aGVsbG8sIHdvcmxl") = Ok (t', []).
 Proof. eexists. vm_compute. reflexivity. Qed.
-
-(* ---- the regenerated pre_auth_encode call sites ---- *)
-From PV Require Import PaeSiteRules.
-From PV.Gen Require Import Headers PaeSites.
-(* the site functions are not constant and depend on every argument: a concrete evaluation, and a differing one *)
-Example C02_site_v4_local_concrete :
-  pae (site_paseto_v4_local_0 [] (str "N") (str "C") (str "F") (str "A")) =
-    le64 5 ++ le64 9 ++ str "v4.local." ++ le64 1 ++ str "N" ++ le64 1 ++ str "C" ++ le64 1 ++ str "F" ++ le64 1 ++ str "A".
-Proof. vm_compute. reflexivity. Qed.
-Example C02_site_distinguishes_footer_from_assertion :
-  pae (site_paseto_v4_local_0 [] (str "N") (str "C") (str "F") []) <> pae (site_paseto_v4_local_0 [] (str "N") (str "C") [] (str "F")).
-Proof. vm_compute. discriminate. Qed.
-Example C02_local_authenticated_input_is_the_sources_used :
-  v3_pre (str ".json") (str "N") (str "C") (str "F") (str "A") = pae (site_paseto_v3_aws_lc_local_0 (str ".json") (str "N") (str "C") (str "F") (str "A")).
-Proof. symmetry. apply C02_local_authenticated_input_is_the_sources. Qed.
-Example C02_public_signed_input_is_the_sources_used :
-  v3_ppre (str "K") [] (str "M") (str "F") (str "A") = pae (site_paseto_v3_public_0 (str "K") [] (str "M") (str "F") (str "A")) /\
-  hd [] (site_paseto_v3_public_0 (str "K") [] (str "M") (str "F") (str "A")) = [str "K"].
-Proof. split; [symmetry; apply C02_public_signed_input_is_the_sources | reflexivity]. Qed.
-(* the header lookup is live: the table has the kinds the sites name, and an unknown kind would give the empty header
-   (and a different encoding) *)
-Example C02_key_hdr_lookup : key_hdr "Local" = str ".local." /\ key_hdr "Public" = str ".public." /\ key_hdr "Nope" = [].
-Proof. vm_compute. repeat split. Qed.
-Example C02_no_other_pae_site_nonvacuous : Nat.leb 14 (length gen_pae_sites) = true /\ Nat.leb 1 (length gen_pae_rebinds) = true.
-Proof. vm_compute. split; reflexivity. Qed.
